@@ -181,7 +181,15 @@ pub fn run(ctx: &Ctx, out: &mut CaseOut) {
                                     ok = false;
                                     let stale = is_slg && crate::common::slg_stale_table(&mut slg_s);
                                     out.violation(
-                                        if stale && a.is_none() && fj.is_some() { Some("slg:stale-delayed-answer-table") } else { None },
+                                        if stale && a.is_none() && fj.is_some() {
+                                            Some("slg:stale-delayed-answer-table")
+                                        } else if is_slg && ((trivial_unique(&a) && fj.as_ref().map_or(false, |s| s.is_ambig())) || (trivial_unique(fj) && a.as_ref().map_or(false, |s| s.is_ambig()))) {
+                                            // F12: tables left half-explored by the interrupted solve change the order in which
+                                            // answers arrive
+                                            Some("slg:trivial-answer-green-cut-order")
+                                        } else {
+                                            None
+                                        },
                                         format!("{}: after a solve interrupted by schedule ({}), solving `{}` on the same solver gives `{}` but a fresh solver gives `{}`", solver_name(&choice), sched_name, w.goals[gj].0, disp(&a), disp(fj)),
                                         d().set("later_goal", w.goals[gj].0.as_str()).set("later_answer", disp(&a)).set("fresh_answer", disp(fj)),
                                     );
@@ -201,4 +209,8 @@ pub fn run(ctx: &Ctx, out: &mut CaseOut) {
             }
         });
     }
+}
+
+fn trivial_unique(s: &Option<Solution<I>>) -> bool {
+    matches!(s, Some(Solution::Unique(c)) if !c.value.subst.is_empty(chalk_integration::interner::ChalkIr) && c.value.subst.is_identity_subst(chalk_integration::interner::ChalkIr))
 }
